@@ -158,7 +158,7 @@ fn next_candidate(rng: &mut Rng, env: &SEnv, cur: &SType, k: &TyKnobs) -> (SType
 
 const FAMILIES: [&str; 40] = [
     "RecV1", "RecV2", "RecV3", "RecV4", "VarV1", "VarV2", "Option<VarV1>", "Option<VarV2>", "Vec<RecV1>", "Vec<RecV2>", "Option<RecV3>", "FuncRef", "FuncRefV2", "ServRef", "ServRefV2", "(RecV1,VarV1)", "(RecV2,Option<VarV2>)",
-    "BTreeMap<String,RecV1>", "BTreeMap<String,RecV2>", "Vec<Option<VarV1>>", "Vec<Option<VarV2>>", "(Nat,)", "(Int,)", "(Int,Option<String>)", "(Nat,String,u8)", "Option<(Int,)>", "(Nat,Int)", "(Int,Nat)", "Nat", "Int", "Vec<Nat>",
+    "BTreeMap<String,RecV1>", "BTreeMap<String,RecV2>", "Vec<Option<VarV1>>", "Vec<Option<VarV2>>", "(Nat)", "(Int)", "(Int,Option<String>)", "(Nat,String,u8)", "Option<(Int)>", "(Nat,Int)", "(Int,Nat)", "Nat", "Int", "Vec<Nat>",
     "Vec<Int>", "Option<Nat>", "Option<Int>", "Principal", "Reserved", "Vec<Option<Nat>>", "Vec<Option<Int>>", "BTreeMap<String,Nat>", "BTreeMap<String,Int>",
 ];
 
